@@ -84,7 +84,14 @@ def _bounds(records):
     return out
 
 
-def generate(rng, index, tier, extra):  # pylint: disable=unused-argument
+def generate(rng, index, tier, extra):
+    try:
+        return _generate(rng, index, tier, extra)
+    except workload.SenderRejected as exc:
+        return {'kind': 'sender-failed', 'channel': exc.channel, 'errors': exc.errors}
+
+
+def _generate(rng, index, tier, extra):  # pylint: disable=unused-argument
     roll = rng.random()
     discards = []
     if roll < 0.12:
@@ -205,6 +212,12 @@ def execute(doc):
         _exec_tls2(doc, res)
     elif kind == 'prefix':
         _exec_prefix(doc, res)
+    elif kind == 'sender-failed':
+        res.violation((PROPERTY, 'composed-records-never-accepted-whole', doc['channel']),
+                      'the reader ends up with exactly the original sequence of records',
+                      '20 units composed by the library in a row were not accepted whole by its own parser (or could '
+                      'not be built): %s' % doc['errors'])
+        res.sched_sig = ('sender-failed', doc['channel'])
     else:
         raise core.HarnessError('unknown schedule kind %r' % kind)
     res.stats['sender.units_not_accepted_by_own_parser(C01-class, not sent)'] += len(doc.get('sender_discards', ()))
@@ -238,7 +251,14 @@ def _exec_tls2(doc, res):
     hstream = b''.join(hs)
     pts = [0] + list(doc['frag_cuts']) + [len(hstream)]
     fragments = [hstream[a:b] for a, b in zip(pts, pts[1:])]
-    records = [bytes(TlsRecord(fragment).compose()) for fragment in fragments]   # the sender: real compose()
+    try:
+        records = [bytes(TlsRecord(fragment).compose()) for fragment in fragments]   # the sender: real compose()
+    except Exception as exc:  # pylint: disable=broad-except
+        res.violation((PROPERTY, 'composed-records-never-accepted-whole', 'tls_record'),
+                      'the reader ends up with exactly the original sequence of records',
+                      'TlsRecord(fragment).compose() raised %s' % type(exc).__name__)
+        res.sched_sig = ('sender-failed', 'tls_record')
+        return
     stream = b''.join(records)
     layer1 = wire.Layer('tls_record', TlsRecord, doc['policy'], res, PROPERTY, truth=[len(r) for r in records])
     layer2 = wire.Layer('tls_handshake', TlsHandshakeMessageVariant, doc['policy2'], res, PROPERTY,
